@@ -178,7 +178,13 @@ func propSpecs() map[string]*PropSpec {
 		c04.Jobs = append(c04.Jobs, JobSpec{Pkg: pkgCM, Harness: "H_C04", Params: kn[:], Bound: fmt.Sprintf("C04 size-boundary input kind %d with n=%d (label limit 999, nesting, local part, digits)", kn[0], kn[1]), Tier: "quick", Panic: "C04.no-panic", Budget: "C04.terminates"})
 	}
 	for _, kn := range [][2]int64{{3, 998}, {3, 1001}, {3, 3000}, {4, 998}, {4, 1001}, {5, 200}, {6, 63}, {6, 65}, {7, 7}} {
-		c04.Jobs = append(c04.Jobs, JobSpec{Pkg: pkgCM, Harness: "H_C04", Params: kn[:], Bound: fmt.Sprintf("C04 size-boundary input kind %d with n=%d", kn[0], kn[1]), Tier: "thorough", Panic: "C04.no-panic", Budget: "C04.terminates"})
+		js := JobSpec{Pkg: pkgCM, Harness: "H_C04", Params: kn[:], Bound: fmt.Sprintf("C04 size-boundary input kind %d with n=%d", kn[0], kn[1]), Tier: "thorough", Panic: "C04.no-panic", Budget: "C04.terminates"}
+		if kn[1] >= 200 && kn[0] != 3 || kn[1] >= 3000 {
+			// the longest paths of these two inputs take 74-84 million interpreter steps (measured);
+			// the default budget of 20 million is a non-termination proxy sized for short inputs
+			js.Steps = 400_000_000
+		}
+		c04.Jobs = append(c04.Jobs, js)
 	}
 	for _, i := range []int64{0, 1, 2, 3, 5, 10, 20, 21, 23, 24} {
 		c04.Jobs = append(c04.Jobs, JobSpec{Pkg: pkgCM, Harness: "H_C04", Params: []int64{8, i}, Bound: fmt.Sprintf("attribute-emission template %d (free bytes in destinations, titles, info strings, autolinks)", i), Tier: "quick", Panic: "C04.no-panic", Budget: "C04.terminates"})
